@@ -23,7 +23,10 @@ for d in seeded/C*; do
   s=$(basename $d); p=${s%%-*}
   run $s $p
 done
+# cross-checks: seeds that another property's check sees as well
 run C01-B C15
+run C01-D C15
 run C18-B C10
 run C11-B C13
+run C11-C C13
 rm -rf /tmp/seedmatrix_evidence /tmp/seedmatrix_replays
